@@ -767,32 +767,46 @@ func checkNQStream(c nqStreamCase) *vk.Failure {
 		uid[t.Value], back[t.UID] = t.UID, t.Value
 		return nil
 	}
-	for i, s := range c.Stmts {
-		var got *rdf.Statement
-		var err error
-		if r := vk.Call(func() { got, err = dec.Unmarshal() }); r.Outcome != vk.Returned {
-			return vk.Failf("stream-panics", "Decoder.Unmarshal on %q: %v %s", text, r.Outcome, r.Text)
-		}
-		if err != nil {
-			return vk.Failf("stream-rejected", "statement %d of %q: %v", i, text, err)
-		}
-		if d := sameStatement(got, s.statement()); d != "" {
-			return vk.Failf("stream-differs"+splitKey(s), "statement %d of %q: %s", i, text, d)
-		}
-		ts := []rdf.Term{got.Subject, got.Predicate, got.Object}
-		if s.L != nil {
-			ts = append(ts, got.Label)
-		}
-		for _, t := range ts {
-			if f := note(t); f != nil {
-				return f
+	// The stream is decoded twice with one Decoder: to EOF, then again after Reset on a fresh
+	// reader ("retaining the existing Term ID mapping": the second pass must deliver the same
+	// statements with the same UIDs, which `note` asserts through the shared maps). Seeded change
+	// C16-16: a Reset that reuses state which Unmarshal drops at EOF.
+	for pass := 0; pass < 2; pass++ {
+		if pass == 1 {
+			if r := vk.Call(func() { dec.Reset(strings.NewReader(text)) }); r.Outcome != vk.Returned {
+				return vk.Failf("stream-reset-panics", "Decoder.Reset after EOF on %q: %v %s", text, r.Outcome, r.Text)
 			}
 		}
-	}
-	for k := 0; k < 2; k++ {
-		got, err := dec.Unmarshal()
-		if got != nil || !errors.Is(err, io.EOF) {
-			return vk.Failf("stream-no-eof", "after the last statement Unmarshal returned (%v, %v) for %q", got, err, text)
+		for i, s := range c.Stmts {
+			var got *rdf.Statement
+			var err error
+			if r := vk.Call(func() { got, err = dec.Unmarshal() }); r.Outcome != vk.Returned {
+				if pass == 1 {
+					return vk.Failf("stream-after-reset-panics", "Decoder.Unmarshal after EOF and Reset on %q: %v %s", text, r.Outcome, r.Text)
+				}
+				return vk.Failf("stream-panics", "Decoder.Unmarshal on %q: %v %s", text, r.Outcome, r.Text)
+			}
+			if err != nil {
+				return vk.Failf("stream-rejected", "statement %d of %q: %v", i, text, err)
+			}
+			if d := sameStatement(got, s.statement()); d != "" {
+				return vk.Failf("stream-differs"+splitKey(s), "statement %d of %q: %s", i, text, d)
+			}
+			ts := []rdf.Term{got.Subject, got.Predicate, got.Object}
+			if s.L != nil {
+				ts = append(ts, got.Label)
+			}
+			for _, t := range ts {
+				if f := note(t); f != nil {
+					return f
+				}
+			}
+		}
+		for k := 0; k < 2; k++ {
+			got, err := dec.Unmarshal()
+			if got != nil || !errors.Is(err, io.EOF) {
+				return vk.Failf("stream-no-eof", "after the last statement Unmarshal returned (%v, %v) for %q", got, err, text)
+			}
 		}
 	}
 	terms := dec.Terms()
